@@ -78,6 +78,16 @@ def json_values(t, budget=None):
         add([w, g])
         add([g, None])
         add([None, g])
+        # longer lists: the offending / null item beyond the second position, in the middle, at the end of 3-5 items
+        add([g, g, w])
+        add([g, w, g])
+        add([g, g, None])
+        add([g, None, g])
+        add([None, g, g])
+        add([g, g, g, None])
+        add([g, g, g, w])
+        add([g, g, g, g, w])
+        add([g, g, g, g, g])
         return out
     return [None] + list(BASE_VALUES[t[1]])
 
